@@ -188,7 +188,7 @@ func (c *Check) reference() {
 	var sample []int
 	inSample := map[int]bool{}
 	for i, f := range corpus.Flags {
-		if f&(common.FProbe|common.FFamily|common.FLiteral|common.FFixture) != 0 && f&common.FLong == 0 {
+		if f&(common.FProbe|common.FFamily|common.FLiteral|common.FFixture|common.FPadded) != 0 && f&common.FLong == 0 {
 			sample = append(sample, i)
 			inSample[i] = true
 		}
@@ -915,4 +915,38 @@ func (c *Check) weakHashVariant() (equivalent bool) {
 		}
 	}
 	return true
+}
+
+// sweepSolo: when the library starts goroutines of its own, a single call is
+// already a concurrent program: every input of 500 bytes or more is asked
+// alone, on each API, under several seeded policies.
+func (c *Check) sweepSolo() {
+	var idx []int32
+	for i, in := range c.Corpus.In {
+		if len(in) >= 500 {
+			idx = append(idx, int32(i))
+		}
+	}
+	const perInput = 12 // 2 APIs x 6 policies
+	total := len(idx) * perInput
+	if total == 0 {
+		return
+	}
+	procs := c.NCPU * 2
+	per := (total + procs - 1) / procs
+	parallel(procs, c.NCPU, func(i int) {
+		from, to := i*per, (i+1)*per
+		if to > total {
+			to = total
+		}
+		if from >= to {
+			return
+		}
+		ses := &workerlib.Session{Mode: "solo", Corpus: c.CorpusP, Seed: c.Seed, Worker: i, From: from, To: to, SyncHeavy: true, NSites: len(c.E.Report.Sites), DistinctPath: c.distinctPath()}
+		pr := runWorker(c.E, ses, 1, 15*time.Minute)
+		if err := procOK(pr); err != nil {
+			harnessFail("solo sweep: %v", err)
+		}
+		c.Agg.add("solo_sweep", pr)
+	})
 }
